@@ -1,6 +1,6 @@
 # Per-property configuration of the driver. budget = internal wall-clock budget (s) [quick, thorough];
 # shards = worker processes [quick, thorough].
-def part(name, mod, pkg, run, shards=(1, 1), budget=(120, 900), gomaxprocs=None, env=None, mem=None):
+def part(name, mod, pkg, run, shards=(1, 1), budget=(120, 900), gomaxprocs=None, env=None, mem=None, race=False):
     d = dict(name=name, mod=mod, pkg=pkg, run=run, shards=shards, budget=budget)
     if gomaxprocs:
         d["gomaxprocs"] = gomaxprocs
@@ -8,6 +8,8 @@ def part(name, mod, pkg, run, shards=(1, 1), budget=(120, 900), gomaxprocs=None,
         d["env"] = env
     if mem:
         d["mem"] = mem
+    if race:
+        d["race"] = True
     return d
 
 
@@ -19,21 +21,21 @@ CHECKS = {
         level="model_checking", engine="seq",
         technique="explicit-state BFS over all offer sequences on the real ChannelMapping (model checking of the implementation)",
         text="Every offer sequence up to the depth bound, for every channel-count pair up to the size bound, is executed on the real util.ChannelMapping with the channel manager's own call protocol; the invariant (one image per key, images never change, load <= ceil(larger/smaller), injective for equal counts, quota leaves room for every key) is evaluated in every reached state.",
-        note="Bounded: channel counts <= 4 (5 thorough), offers <= 5 (6). The protocol driver mirrors startReadChannel/waitChannel; the manager itself is exercised in the C02 pipeline harness.",
+        note="Bounded: channel counts <= 5 (6 thorough), offers <= 6 (8). The protocol driver mirrors startReadChannel/waitChannel; the manager itself is exercised in the C02 pipeline harness.",
         parts=[part("mapping", "core", "util", "TestVerifC16Mapping", shards=(4, 16))],
     ),
     "C14": dict(
         level="model_checking", engine="seq",
         technique="explicit-state BFS over receive/tick/clear histories on the real Packer + MemoryProtector under virtual time, step-wise comparison with a list reference model",
         text="Every history of receive(size class)/clock-advance/clear operations up to the depth bound over one or two real packers sharing the real global memory protector, for every threshold configuration and failing-flush index, is replayed on fresh objects; each callback batch, each return value, the buffered remainder and the global byte counter are compared with a reference list model after every step.",
-        note="Bounded: depth 7 (9 thorough; one less with two packers), three size classes, MaxCount 1..3, callback failure at flush 0..2. Time is testing/synctest virtual time. Assumes single-goroutine use per packer as in startReplicateDMLMsg.",
+        note="Bounded: depth 8 (11 thorough; one less with two packers), three size classes, MaxCount 1..3, callback failure at flush 0..2. Time is testing/synctest virtual time. Assumes single-goroutine use per packer as in startReplicateDMLMsg.",
         parts=[part("packer", "server", "msgpacker", "TestVerifC14Packer", shards=(8, 16), budget=(150, 900))],
     ),
     "C17": dict(
         level="model_checking", engine="seq",
         technique="explicit-state BFS over report/remove/reload histories on the real ReplicateMeteImpl, compared with a reference union after every step",
         text="Every history of shard reports, removals and reloads up to the depth bound over 2 tasks x 2 messages (collection and partition drop) and target sets of 1-3 shards is replayed on a fresh real ReplicateMeteImpl; in-memory maps, store contents, API read-back and the returned ready flag are compared with the reference union after each operation, and a reload is compared with the memory it replaces.",
-        note="Bounded: depth 6 (8 thorough), 2 tasks, 2 messages, <=3 shards; thorough adds two-shard reports. The store is an in-memory api.ReplicateStore that serialises to JSON like both real backends; store faults are not injected (not in the property's quantifier).",
+        note="Bounded: depth 7 (9 thorough), 2 tasks, 2 messages, <=3 shards; thorough adds two-shard reports. The store is an in-memory api.ReplicateStore that serialises to JSON like both real backends; store faults are not injected (not in the property's quantifier).",
         parts=[part("meta", "core", "meta", "TestVerifC17Meta", shards=(8, 16), budget=(150, 900))],
     ),
     "C09": dict(
@@ -75,7 +77,7 @@ CHECKS = {
         level="model_checking", engine="seq",
         technique="explicit-state BFS over catalog-generating histories; each reachable catalog is read by the real EtcdOp.GetAllDroppedObj (over fakeetcd) and compared with the model's expectation",
         text="Every source catalog reachable by a history of legal root-coord operations up to the depth bound (two databases, repeated names across incarnations, all object states, tombstones) is written to the in-memory etcd and read by the real GetAllDroppedObj, with and without a Milvus downstream; entry set and horizons are compared with an expectation computed from the catalog model.",
-        note="Catalogs come from histories so impossible catalogs cannot raise alarms; depth 6 (7 thorough), one collection name per database (two thorough), one partition name. fakeetcd models the etcd Get/prefix semantics used here; key layout and tombstone encoding copied from the reader's own constants.",
+        note="Catalogs come from histories so impossible catalogs cannot raise alarms; depth 7 (7 thorough), one collection name per database (two thorough), one partition name. fakeetcd models the etcd Get/prefix semantics used here; key layout and tombstone encoding copied from the reader's own constants.",
         parts=[part("snapshot", "core", "reader", "TestVerifC15Snapshot", shards=(8, 16), budget=(150, 900))],
     ),
     "C01": dict(
@@ -83,7 +85,8 @@ CHECKS = {
         technique="stateless DFS over goroutine schedules (deviation-bounded) of the real channel manager inside synctest bubbles, exhaustive over script and schedule space within the bounds",
         text="The real replicateChannelManager (handlers, TS manager, barriers) is driven by fakemq streams; every single-stream script up to the length bound and every schedule of the multi-stream scenarios within the deviation bound is executed and the emitted stream is compared with the source log (complete, duplicate-free, ordered, payload-exact, packs in read order with the right labels).",
         note="Bounds: scripts <= 2 packs (3 thorough) over 13 pack letters; <= 2 deviations (3 thorough); hook-to-hook segments are atomic; source dispatcher and downstream are the models of DESIGN 2.7.",
-        parts=[part("stream", "core", "reader", "TestVerifC01Stream", shards=(12, 16), budget=(150, 900), gomaxprocs=1)],
+        parts=[part("stream", "core", "reader", "TestVerifC01Stream", shards=(12, 16), budget=(150, 900), gomaxprocs=1),
+               part("race", "core", "reader", "TestVerifC01Stream", shards=(4, 8), budget=(60, 300), race=True)],
     ),
     "C02": dict(
         level="exploration", engine="sched",
@@ -105,13 +108,14 @@ CHECKS = {
         technique="stateless DFS over goroutine schedules (deviation-bounded) of the real channel manager and its barriers for every drop / stop / restart scenario",
         text="Drop-collection and drop-partition scripts over 1-3 shards, partition registration racing stream registration, stop with and without a half-completed drop, and restarts with objects already dropped upstream are executed on the real channel manager under every schedule within the deviation bound; the drop requests observed on the event channel are counted, attributed and placed in time against the per-shard delivery progress.",
         note="Bounds: <= 2 shards (3 thorough), <= 2 deviations (3 thorough; 1 for the heaviest scenarios). After a drop the scripts address the dropped object no more (a source never does).",
-        parts=[part("drop", "core", "reader", "TestVerifC04Drop", shards=(12, 16), budget=(150, 900), gomaxprocs=1)],
+        parts=[part("drop", "core", "reader", "TestVerifC04Drop", shards=(12, 16), budget=(150, 900), gomaxprocs=1),
+               part("race", "core", "reader", "TestVerifC04Drop", shards=(4, 8), budget=(60, 300), race=True)],
     ),
     "C13": dict(
         level="exploration", engine="sched",
         technique="stateless DFS over goroutine schedules (deviation-bounded) with catalog writes placed at every step of the real reader start-up over an in-memory etcd",
         text="The real CollectionReader.StartRead and EtcdOp (watchers, event pool) run over fakeetcd; for every scenario the catalog writes are placed at every decision point among the reader's etcd calls and all schedules within the deviation bound are executed; at quiescence the recorded StartReadCollection / AddPartition / AddDropped* calls are compared with the catalog model.",
-        note="Bounds: <= 4 catalog writes per scenario, <= 1 further deviation (2 thorough), two databases. Duplicate-notification handling by the real channel manager is exercised in the C04 family (drop:announced-twice). fakeetcd models Get/prefix/Watch-with-prev-kv semantics; thorough conformance against embedded etcd is a separate part.",
+        note="Bounds: <= 4 catalog writes per scenario, <= 2 further deviations (3 thorough), two databases. Duplicate notifications at the real channel manager (collection / partition announced twice, concurrently and one after the other) are the 'duplicates' part. fakeetcd models Get/prefix/Watch-with-prev-kv semantics; thorough conformance against embedded etcd is a separate part.",
         parts=[part("start", "core", "reader", "TestVerifC13Start", shards=(12, 16), budget=(150, 900), gomaxprocs=1),
                part("lookup", "core", "reader", "TestVerifC13Lookup", shards=(4, 8), budget=(120, 600)),
                part("duplicates", "core", "reader", "TestVerifC13Duplicates", shards=(12, 16), budget=(150, 900), gomaxprocs=1)],
@@ -120,14 +124,14 @@ CHECKS = {
         level="model_checking", engine="seq",
         technique="explicit-state BFS over create/delete/failed-create/restart histories on the real MetaCDC with invariant + differential (fresh reload) oracle in every state",
         text="Every history of create (13 specification shapes), create with a store fault at the n-th call, delete and restart up to the depth bound is replayed on a fresh real MetaCDC (real etcd stores over fakeetcd); in every reached state the selections made by the real data-path and DDL-path functions are evaluated for a 3x3 universe of (database, collection) pairs against a reference, rejected requests must leave bookkeeping and store byte-identical, and the live bookkeeping must equal a fresh reload of the same store.",
-        note="Bounded: depth 4 (5 thorough), one target, <= 3 tasks, universe {default, db1, db2} x {a, b, c}. The replication entity is the light one (recording channel manager); connectivity probe skipped through the verif hook.",
+        note="Bounded: depth 4 (6 thorough), one target, <= 3 tasks, universe {default, db1, db2} x {a, b, c}. The replication entity is the light one (recording channel manager); connectivity probe skipped through the verif hook.",
         parts=[part("tasks", "server", ".", "TestVerifC10Tasks", shards=(16, 16), budget=(150, 1200))],
     ),
     "C19": dict(
         level="model_checking", engine="seq",
         technique="total enumeration of request bodies over a JSON-structural alphabet up to a length bound plus all single-subtree mutations of valid requests, and adversarial creates after every accepted prefix with snapshot comparison",
         text="The real /cdc handler (getCDCHandler + handle_map + MetaCDC) is driven through httptest with every body up to the length bound over a JSON-structural alphabet and every single-subtree mutation of each valid request type; every answer must be one JSON object with a legal code and no handler may panic. Structurally valid creates with adversarial values are sent on the empty server and after every accepted prefix; a rejected request must leave tasks, checkpoints, bookkeeping and the store dump unchanged, an accepted one must not poison later requests.",
-        note="Honest limit: 'all byte strings' is covered to 4 bytes (5 thorough) over an 11-symbol alphabet plus structured mutations; prefixes of depth <= 2. Connectivity probe skipped through the verif hook, light replication entity.",
+        note="Honest limit: 'all byte strings' is covered to 5 bytes (6 thorough) over an 11-symbol alphabet plus structured mutations; prefixes of depth <= 2. Connectivity probe skipped through the verif hook, light replication entity.",
         parts=[part("total", "server", ".", "TestVerifC19Total", shards=(8, 16), budget=(150, 900)),
                part("rejects", "server", ".", "TestVerifC19Rejects", shards=(4, 8), budget=(150, 600))],
     ),
@@ -143,7 +147,7 @@ CHECKS = {
         level="model_checking", engine="seq",
         technique="explicit-state BFS over API call histories with store-fault indexes on the real MetaCDC, invariant + reference state machine in every state",
         text="Every history of create/pause/resume/delete/get/list/restart over two tasks (one or two targets, auto-start on/off), optionally with the metadata store failing at the n-th call of an operation, is replayed on a fresh real MetaCDC; in every reached state the API, the persisted record, the in-memory table and the per-state gauges must agree, only legal transitions may succeed, and reference count, quit functions, replication entity, catalog subscriptions, source stream registrations and store records must match the set of running / existing tasks.",
-        note="Bounded: depth 4 (5 thorough), fault at store call 1..3 (1..6), two tasks. Light replication entity (recording channel manager); the busy-background-work clause was exercised by the stall watchdog of the pipeline harness (barrier spin, fixed).",
+        note="Bounded: depth 5 (6 thorough), fault at store call 1..3 (1..6), two tasks, ids given by the client or assigned by the server; a failure report of the reader (error event) is one of the operations. Light replication entity (recording channel manager) in the lifecycle part; the fullstack part re-judges the C05/C06 full-stack scenarios (real readers, channel manager, writer) for agreement of the four views of the state at every quiescent point. The busy-background-work clause was exercised by the stall watchdog of the pipeline harness (barrier spin, fixed).",
         parts=[part("lifecycle", "server", ".", "TestVerifC11Lifecycle", shards=(16, 16), budget=(150, 1200)),
                part("fullstack", "server", ".", "TestVerifC11Fullstack", shards=(16, 16), budget=(150, 1200), gomaxprocs=1)],
     ),
